@@ -29,7 +29,9 @@ def parseTok (s : String) : Option Tok :=
 def parseToks (s : String) : Option (List Tok) :=
   if s == "-" then some [] else sequenceOpt ((s.splitOn " ").map parseTok)
 
-def defScan (defs : List (List Tok)) (cmd : List Tok) : String :=
+/-- `textMode = false`: the tokens are the condition of an `#if` (`trim_whitespace`, `apply_defined = true`);
+    `textMode = true`: ordinary source text, several lines, scanned by `flush_normal` with `apply_defined = false` -/
+def defScan (defs : List (List Tok)) (cmd : List Tok) (textMode : Bool := false) : String :=
   let rec build : List (List Tok) → List Macro → Except Err (List Macro)
     | [], ms => .ok ms
     | d :: r, ms =>
@@ -39,7 +41,7 @@ def defScan (defs : List (List Tok)) (cmd : List Tok) : String :=
   match build defs [] with
   | .error _ => "err:invalid-define"
   | .ok ms =>
-    match applyMacros (fun _ _ => none) bodyRescanFlag argExpandFlag 100000 ms (trim cmd) true with
+    match applyMacros (fun _ _ => none) bodyRescanFlag argExpandFlag 100000 ms (if textMode then cmd else trim cmd) (!textMode) with
     | .ok _ => "done"
     | .error .invalidDefine => "err:invalid-define"
     | .error .macroRequiresArguments => "err:requires-arguments"
@@ -140,6 +142,11 @@ def handle (op : String) (args : List String) : String :=
     let defs := if defsS == "-" then some [] else sequenceOpt ((defsS.splitOn "|").map parseToks)
     match defs, parseToks cmdS with
     | some ds, some cmd => defScan ds cmd
+    | _, _ => "bad-request"
+  | "C08.textscan", [defsS, cmdS, _scenario] =>
+    let defs := if defsS == "-" then some [] else sequenceOpt ((defsS.splitOn "|").map parseToks)
+    match defs, parseToks cmdS with
+    | some ds, some cmd => defScan ds cmd true
     | _, _ => "bad-request"
   | "C08.compile", _ => "unsupported: whole-compiler totality is observed by the supervised run, not predicted"
   | _, _ => "unsupported-op"
